@@ -431,9 +431,26 @@ def gen_new(tree):
             "Definition mk_qty_impl (dm : mode) (amnt : Q) (unit : unit) : qty :=\n" + body + ".\n")
 
 
+def gen_unit_quantum(tree):
+    """the property Unit.quantum: the quantum of the unit's type (an optional number, given as
+    a parameter) divided by the unit's scale"""
+    ms = [m for n in tree.body if isinstance(n, ast.ClassDef) and n.name == 'Unit'
+          for m in n.body if isinstance(m, ast.FunctionDef) and m.name == 'quantum']
+    if len(ms) != 1 or [ast.unparse(d) for d in ms[0].decorator_list] != ['property'] \
+            or [a.arg for a in ms[0].args.args] != ['self']:
+        raise Unsupported("Unit.quantum: not a single read-only property")
+    fn = Fn('Unit', 'quantum', [('self', 'unit')], 'optq', 'unit_quantum_impl')
+    tr = Tr(fn)
+    env = {'self': ('unit', 'self'), 'cls.quantum': ('optq', 'cls_quantum')}
+    body = tr.block(ms[0].body, env)
+    return ("(* Unit.quantum; [cls_quantum] is the quantum of the unit's type *)\n"
+            "Definition unit_quantum_impl (cls_quantum : option Q) (self : unit) : res (option Q) :=\n"
+            + body + ".\n")
+
+
 def generate(path):
     tree = ast.parse(open(path, encoding='utf-8').read())
-    out = [PRELUDE, gen_new(tree)]
+    out = [PRELUDE, gen_new(tree), gen_unit_quantum(tree)]
     for fn, defaults in FUNCS:
         m = find_method(tree, fn.cls, fn.name)
         names = [a.arg for a in m.args.args]
